@@ -19,7 +19,9 @@ open Acme.Save
 /-- (a) Saving a well-formed network whose narrowed numbers fit and loading the saved tree gives
     the network back, in the order normal form `norm` (lists in the order of the getters the saver
     iterates, multiplexer children in the order of their last appearance in the walk over the
-    groups, enum attribute values with the default first). -/
+    groups, enum attribute values with the default first).  `NetWF` includes what the loader checks
+    network-wide: distinct message entity ids and distinct signal entity ids (nested children
+    included) — the public API draws entity ids at random. -/
 theorem load_save (n : Net) (hw : NetWF n) (hr : InRange n) : load (save n) = .ok (norm n) :=
   load_save_aux n hw hr
 
@@ -102,10 +104,11 @@ theorem load_refuses_dangling (p : PNet) (r : Ref) (hr : r ∈ prefs p) (hd : ¬
 /-- … and the exact cause class of each look-up: `EntityIDError{ErrNotFound}` carrying the id. -/
 theorem dangling_cause (T : Tbl) :
     (∀ p r, T.attr p.attr = none → loadAsgs T (p :: r) = .error (.notFound .attr p.attr)) ∧
-    (∀ ty un, findEnt T.types ty = none → loadBody T 1 (.std ty un) = .error (.notFound .type ty)) ∧
-    (∀ ty un, (findEnt T.types ty).isSome = true → un ≠ "" → findEnt T.units un = none →
-        loadBody T 1 (.std ty un) = .error (.notFound .unit un)) ∧
-    (∀ en, findEnt T.enums en = none → loadBody T 2 (.enm en) = .error (.notFound .enum en)) ∧
+    (∀ self sn ty un, findEnt T.types ty = none →
+        loadBody T 1 self sn (.std ty un) = .error (.notFound .type ty)) ∧
+    (∀ self sn ty un, (findEnt T.types ty).isSome = true → un ≠ "" → findEnt T.units un = none →
+        loadBody T 1 self sn (.std ty un) = .error (.notFound .unit un)) ∧
+    (∀ self sn en, findEnt T.enums en = none → loadBody T 2 self sn (.enm en) = .error (.notFound .enum en)) ∧
     (∀ st p, T.node p.node = none → loadIface T st p = .error (.notFound .node p.node)) ∧
     (∀ mid st acc node num r, T.node node = none →
         loadRecvs T mid st acc ((node, num) :: r) = .error (.notFound .node node)) ∧
@@ -176,8 +179,8 @@ example : (saveBody Ex.net.t Ex.outer.body) =
       [] [[], [("s5", 0), ("s8", 12)], [("s4", 0), ("s8", 12)]] := by decide
 
 example :
-    (match loadBody (norm Ex.net).t 3 (saveBody Ex.net.t Ex.outer.body) with
-     | .ok (.mux gc kids) => some (gc, kids.map fun c => (c.sig.id, c.pos, c.grp))
+    (match loadBody (norm Ex.net).t 3 "s2" [] (saveBody Ex.net.t Ex.outer.body) with
+     | .ok (.mux gc kids, _) => some (gc, kids.map fun c => (c.sig.id, c.pos, c.grp))
      | _ => none) =
     some (3, [("s5", 0, some [1]), ("s4", 0, some [2]), ("s8", 12, some [1, 2])]) := by decide
 
@@ -199,17 +202,17 @@ def innerSaved (groups : List (List (Id × Nat))) : PBody :=
 example : saveBody Ex.net.t Ex.inner.body = innerSaved [[("s6", 0)], [("s6", 0), ("s7", 4)]] := by decide
 
 /-- child `s7` in no group: `unplaced` -/
-example : loadBody (norm Ex.net).t 3 (innerSaved [[("s6", 0)], [("s6", 0)]]) = .error (.unplaced ["s7"]) := by
+example : loadBody (norm Ex.net).t 3 "s5" [] (innerSaved [[("s6", 0)], [("s6", 0)]]) = .error (.unplaced ["s7"]) := by
   decide
 
 /-- the fixed child `s6` at two positions: `twoPositions` (the position of the later entry) -/
-example : loadBody (norm Ex.net).t 3 (innerSaved [[("s6", 0)], [("s6", 1), ("s7", 4)]]) =
+example : loadBody (norm Ex.net).t 3 "s5" [] (innerSaved [[("s6", 0)], [("s6", 1), ("s7", 4)]]) =
     .error (.twoPositions 1) := by decide
 
 /-- the two group lists swapped: the child of group 1 comes back in group 0 -/
 example :
-    (match loadBody (norm Ex.net).t 3 (innerSaved [[("s6", 0), ("s7", 4)], [("s6", 0)]]) with
-     | .ok (.mux _ kids) => kids.map fun c => (c.sig.id, c.grp)
+    (match loadBody (norm Ex.net).t 3 "s5" [] (innerSaved [[("s6", 0), ("s7", 4)], [("s6", 0)]]) with
+     | .ok (.mux _ kids, _) => kids.map fun c => (c.sig.id, c.grp)
      | _ => []) = [("s6", none), ("s7", some [0])] := by decide
 
 end Example
